@@ -461,6 +461,44 @@ func c07Run(tier, shard string, r *mc.Reporter) {
 			}
 		}
 	}
+	// every paired bracket of Unicode (Bidi_Paired_Bracket_Type, read from x/text) between letters of two scripts:
+	// "matched brackets follow their context": the closing bracket is in a run of the script of the opening one
+	if sh == 0 {
+		for o := rune(0x20); o < 0x30000; o++ {
+			po, _ := bidi.LookupRune(o)
+			if !po.IsBracket() || !po.IsOpeningBracket() || (0x298D <= o && o <= 0x2990) {
+				// U+298D..U+2990: the paired bracket is not the mirrored character (BidiBrackets.txt against BidiMirroring.txt)
+				continue
+			}
+			cl, _ := ucd.LookupMirrorChar(o)
+			if pc, _ := bidi.LookupRune(cl); cl == o || !pc.IsBracket() || pc.IsOpeningBracket() {
+				continue
+			}
+			if language.LookupScript(o).Strong() || language.LookupScript(cl).Strong() {
+				continue
+			}
+			for _, t := range [][]rune{{'a', o, 0x03B2, cl, 'b'}, {0x03B1, o, 'a', cl, 0x03B2}} {
+				c := &c07case{Text: t, Start: 0, End: len(t), Dir: 0}
+				e.check(c, &e.seg)
+				out, _, _, ok := e.split(&e.seg, c)
+				if !ok {
+					continue
+				}
+				scriptAt := func(k int) language.Script {
+					for _, run := range out {
+						if run.RunStart <= k && k < run.RunEnd {
+							return run.Script
+						}
+					}
+					return language.Unknown
+				}
+				r.Count("unicode_bracket_pairs_checked", 1)
+				if scriptAt(3) != scriptAt(1) {
+					r.Violation(fmt.Sprintf("C07:matched-bracket-script:U+%04X", o), c, fmt.Sprintf("the closing bracket U+%04X is in a run of script %s, its opening bracket U+%04X in a run of script %s", cl, scriptAt(3), o, scriptAt(1)))
+				}
+			}
+		}
+	}
 	// bracket pass: longer texts over letters of three scripts, two bracket pairs and space (whole range)
 	bl := 6
 	if tier == "thorough" {
@@ -541,6 +579,6 @@ func init() {
 		Assumptions: []string{"reference embedding levels from the x/text bidi core applied to each paragraph of the requested sub-range, auto paragraph level for LTR/TTB inputs and level 1 for RTL/BTT (the convention of the library's own bidi call)",
 			"neutral characters: only 'no invented script' is required (the run script is Common or the script of some strong rune of the text)"},
 		Shards: c07ShardList, Run: c07Run, Replay: c07Replay,
-		Bounds: map[string]string{"quick": "texts of length <= 4 over 24 runes; every paragraph separator (bidi class B) between strings of length <= 2 over 4 strong runes; bracket alphabet (8 runes) length 5..6", "thorough": "texts of length <= 4 over 24 runes; bracket alphabet length 5..7"},
+		Bounds: map[string]string{"quick": "texts of length <= 4 over 24 runes; every paragraph separator (bidi class B) between strings of length <= 2 over 4 strong runes; bracket alphabet (8 runes) length 5..6; every Unicode bracket pair (118 texts)", "thorough": "texts of length <= 4 over 24 runes; bracket alphabet length 5..7"},
 	})
 }
